@@ -11,13 +11,17 @@ INFO = {
     'outside': 'more than two original variables, coefficients beyond +-2, real solutions that are not grid points, value listeners, the PARALLELIZE build',
 }
 
-A, POP, ROOT, CHK = 0, 1, 2, 3
+A, POP, ROOT, CHK, REQ, CL = 0, 1, 2, 3, 4, 5
+
+
+def cl(r1, s1, r2, s2):
+    return (CL, r1, s1 + 2 * s2 + 4 * r2)
 REL = ['<', '<=', '=', '>=', '>']
 
 
 def scen(rels, hist):
     p = [len(rels)]
-    for r in rels: p += list(r)
+    for r in rels: p += list(r) + ([0] if len(r) == 5 else [])
     p.append(len(hist))
     for h in hist: p += list(h)
     return p
@@ -41,6 +45,12 @@ CURATED = [
     ([(1, 2, 1, 4, 1), (3, 1, 1, 3, 1), (1, 1, 0, 0, 1), (4, 0, 1, 4, 1)], [(A, 0, 1), (A, 1, 1), (A, 2, 1), (A, 3, 1), (POP, 0, 0)]),
     # equality then disequality through strict literals
     ([(2, 1, 1, 2, 1), (0, 1, 0, 1, 1), (4, 1, 0, 1, 1)], [(A, 0, 1), (A, 1, 0), (A, 2, 0)]),
+    # one decision tightening BOTH bounds of a variable in one level (either order), then retracting it  (x <= 3 -> x >= 1, and x >= 1 -> x <= 3)
+    ([(1, 1, 0, 3, 1), (3, 1, 0, 1, 1), (3, 1, 0, 2, 1)], [cl(0, 0, 1, 1), (A, 0, 1), (POP, 0, 0), (A, 2, 0), (POP, 0, 0)]),
+    ([(1, 1, 0, 3, 1), (3, 1, 0, 1, 1), (1, 1, 0, 0, 1)], [cl(1, 0, 0, 1), (A, 1, 1), (POP, 0, 0), (A, 2, 1), (POP, 0, 0)]),
+    ([(1, 1, 1, 3, 1), (3, 1, 1, 2, 1), (1, 1, 1, 1, 1)], [cl(0, 0, 1, 1), (A, 0, 1), (POP, 0, 0), (A, 2, 1)]),
+    ([(1, 1, 1, 3, 1), (3, 1, 1, 2, 1), (3, 1, 1, 4, 1)], [cl(1, 0, 0, 1), (A, 1, 1), (POP, 0, 0), (A, 2, 1)]),
+    ([(2, 1, 0, 2, 1), (1, 1, 0, 1, 1), (3, 1, 0, 3, 1)], [(A, 0, 1), (POP, 0, 0), (A, 1, 1), (POP, 0, 0), (A, 2, 1)]),
     # negative coefficients
     ([(1, -1, 2, 1, 1), (3, -2, 1, 0, 1), (0, 0, -1, -1, 1)], [(A, 0, 1), (A, 1, 1), (A, 2, 1), (POP, 0, 0), (CHK, 2, 0)]),
 ]
@@ -68,9 +78,12 @@ def fmt(rels, hist):
         t = []
         if r[1]: t.append('%d*x' % r[1])
         if r[2]: t.append('%d*y' % r[2])
-        return '%s %s %s' % (' + '.join(t) or '0', REL[r[0]], ('%d/%d' % (r[3], r[4])) if r[4] != 1 else str(r[3]))
-    nm = {A: 'assume', POP: 'pop', ROOT: 'assert-at-root', CHK: 'check'}
-    return '%s  ::  %s' % (', '.join('r%d: %s' % (i, e(r)) for i, r in enumerate(rels)), '; '.join(nm[o] + ('' if o == POP else '(%sr%d)' % ('' if s else '!', c)) for o, c, s in hist))
+        return '%s%s %s %s' % ('(deferred) ' if r[0] >= 10 else '', ' + '.join(t) or '0', REL[r[0] % 10], ('%d/%d' % (r[3], r[4])) if r[4] != 1 else str(r[3]))
+    nm = {A: 'assume', POP: 'pop', ROOT: 'assert-at-root', CHK: 'check', REQ: 'request'}
+    def one(o, c, s):
+        if o == CL: return 'root-clause(%sr%d | %sr%d)' % ('' if s & 1 else '!', c, '' if s & 2 else '!', s >> 2)
+        return nm[o] + ('' if o == POP else '(%sr%d)' % ('' if s else '!', c))
+    return '%s  ::  %s' % (', '.join('r%d: %s' % (i, e(r)) for i, r in enumerate(rels)), '; '.join(one(o, c, s) for o, c, s in hist))
 
 
 def jobs(tier):
